@@ -196,6 +196,9 @@ class RandomTree:
         rng, w, bid = self.rng, self.w, d["id"]
         if hmut == "target_otherchain":
             d["altstart"] = self._altstart
+        if hmut == "evidence_otherchain":
+            d["evok"] = False
+            d["alt_tip"] = getattr(self, "_alt_tip", -1)
         if hmut == "badpow":
             d["powok"] = False
         elif hmut == "ts_equal":
@@ -232,6 +235,21 @@ class RandomTree:
         rng, w = self.rng, self.w
         if parent is None:
             parent = rng.choice(self.stored) if rng.random() < 0.6 else self.stored[-1]
+        # a child of a side-branch block whose chain sample is cut from the active chain (blocks that are not its ancestors)
+        want_eo = False
+        if force == "evidence_otherchain" or (force is None and self.p_mut > 0 and include is None and rng.random() < 0.08):
+            try:
+                cs = self.rec.cs
+                main = cs.by_height_at_head()
+                top = cs.head().height
+                side = [a for a in self.stored if 1 <= self.height[a] <= top and main[self.height[a]].hash() != w.by_abs[a].hash()]
+                tip = [a for a in self.stored if w.by_abs[a].hash() == cs.head().hash()]
+                if side and tip:
+                    parent = rng.choice(side)
+                    self._alt_tip = tip[0]
+                    want_eo = True
+            except Exception:
+                pass
         bid = self.next_id
         h = self.height[parent] + 1
         ts = self.ts[parent] + rng.choice([1, 1, 2, 3])
@@ -283,6 +301,8 @@ class RandomTree:
                 mut = "reward%+d" % reward_delta
             else:
                 hmut = force if force else rng.choice(HDR_MUTS + ["future"])
+        if want_eo:
+            hmut, mut, reward_delta, txs = "evidence_otherchain", "", 0, txs0
         # a candidate on a retarget boundary of a side branch whose target is computed from the *active* chain's period start
         if not hmut and not mut and h % w.cfg.period == 0 and rng.random() < 0.5:
             try:
@@ -333,7 +353,7 @@ class RandomTree:
         # twins: whatever the node remembered while judging one candidate must not decide the fate of a look-alike.
         #  (a) an altered candidate was refused -> its unaltered twin (same parent, same transactions) is offered next and must pass;
         #  (b) an unaltered candidate was accepted -> a twin with one header-level alteration is offered next and must be refused.
-        if self.twins and force is None and hmut not in ("orphan", "target_otherchain") and rng.random() < 0.35:
+        if self.twins and force is None and hmut not in ("orphan", "target_otherchain", "evidence_otherchain") and rng.random() < 0.35:
             strip = lambda t: {k: v for k, v in t.items() if k not in ("_pick", "_fee")}
             if (hmut or mut) and res == "rej":
                 self._offer_twin(self.next_id, parent, h, ts, now_slack, sub + fees, [strip(t) for t in txs0], txs0, "", hmut or mut)
